@@ -255,4 +255,110 @@ theorem foldl_set_map (f : β → β) (d : β) (xs : List β) :
   have h := foldl_set_shift f d xs []
   simpa using h
 
+/-! ### in-place compaction `count := 0; for i := range xs { r := …xs[i]…; if skip { continue }; xs[count] = r; count++ }; xs[:count]` -/
+
+/-- what the compaction keeps, from position `i` on: `g i x = none` skips, `some r` keeps `r` -/
+def compactFrom (g : Nat → β → Option β) : Nat → List β → List β
+  | _, [] => []
+  | i, x :: rest =>
+    match g i x with
+    | none => compactFrom g (i + 1) rest
+    | some r => r :: compactFrom g (i + 1) rest
+
+/-- one iteration: the state is `(count, xs)` -/
+def compactStep (g : Nat → β → Option β) (d : β) (st : Nat × List β) (i : Nat) : Nat × List β :=
+  match g i (st.2.getD i d) with
+  | none => st
+  | some r => (st.1 + 1, st.2.set st.1 r)
+
+/-- the loop, from any point on: `out` is what has been kept (`count = out.length`), `junk` the slots between
+    `count` and `i`, `rest` the elements not yet visited (never overwritten: `count ≤ i`) -/
+theorem compact_fold (g : Nat → β → Option β) (d : β) (rest out junk : List β) :
+    ∃ junk', (List.range' (out.length + junk.length) rest.length).foldl (compactStep g d) (out.length, out ++ junk ++ rest)
+      = (out.length + (compactFrom g (out.length + junk.length) rest).length,
+         out ++ (compactFrom g (out.length + junk.length) rest ++ junk')) := by
+  induction rest generalizing out junk with
+  | nil => exact ⟨junk, by simp [compactFrom]⟩
+  | cons x t ih =>
+    have hget : (out ++ junk ++ x :: t).getD (out.length + junk.length) d = x := by
+      have := getD_append_cons_length (out ++ junk) x t d
+      rw [List.length_append] at this
+      exact this
+    rw [List.length_cons, List.range'_succ, List.foldl_cons]
+    cases hg : g (out.length + junk.length) x with
+    | none =>
+      have hstep : compactStep g d (out.length, out ++ junk ++ x :: t) (out.length + junk.length)
+          = (out.length, out ++ (junk ++ [x]) ++ t) := by
+        unfold compactStep
+        dsimp only
+        rw [hget, hg]
+        simp
+      rw [hstep]
+      obtain ⟨j', h⟩ := ih out (junk ++ [x])
+      refine ⟨j', ?_⟩
+      have e1 : out.length + (junk ++ [x]).length = out.length + junk.length + 1 := by
+        simp only [List.length_append, List.length_cons, List.length_nil]; omega
+      rw [e1] at h
+      simp only [compactFrom, hg]
+      exact h
+    | some r =>
+      cases junk with
+      | nil =>
+        simp only [List.length_nil, Nat.add_zero, List.append_nil] at hget hg ⊢
+        have hstep : compactStep g d (out.length, out ++ x :: t) out.length
+            = ((out ++ [r]).length, (out ++ [r]) ++ [] ++ t) := by
+          have hs := set_append_cons_length out x r t
+          simp only [compactStep, hget, hg, hs, List.length_append, List.length_cons, List.length_nil,
+            List.append_assoc, List.cons_append, List.nil_append, List.append_nil]
+        rw [hstep]
+        obtain ⟨j', h⟩ := ih (out ++ [r]) []
+        refine ⟨j', ?_⟩
+        have e1 : (out ++ [r]).length + ([] : List β).length = out.length + 1 := by simp
+        rw [e1] at h
+        simp only [compactFrom, hg]
+        simp only [List.length_append, List.length_cons, List.length_nil, List.append_assoc, List.cons_append,
+          List.nil_append] at h ⊢
+        rw [h]
+        congr 1
+        omega
+      | cons j js =>
+        have hstep : compactStep g d (out.length, out ++ (j :: js) ++ x :: t) (out.length + (j :: js).length)
+            = ((out ++ [r]).length, (out ++ [r]) ++ (js ++ [x]) ++ t) := by
+          have hs := set_append_cons_length out j r (js ++ x :: t)
+          simp only [List.append_assoc, List.cons_append] at hget hs ⊢
+          unfold compactStep
+          dsimp only
+          rw [hget, hg]
+          dsimp only
+          rw [hs]
+          simp
+        rw [hstep]
+        obtain ⟨j', h⟩ := ih (out ++ [r]) (js ++ [x])
+        refine ⟨j', ?_⟩
+        have e1 : (out ++ [r]).length + (js ++ [x]).length = out.length + (j :: js).length + 1 := by
+          simp only [List.length_append, List.length_cons, List.length_nil]; omega
+        rw [e1] at h
+        simp only [compactFrom, hg]
+        simp only [List.length_append, List.length_cons, List.length_nil, List.append_assoc, List.cons_append,
+          List.nil_append] at h ⊢
+        rw [h]
+        congr 1
+        omega
+
+/-- the whole loop followed by `xs[:count]` -/
+theorem compact_loop (g : Nat → β → Option β) (d : β) (xs : List β) :
+    (((List.range xs.length).foldl (compactStep g d) (0, xs)).2.take
+        ((List.range xs.length).foldl (compactStep g d) (0, xs)).1) = compactFrom g 0 xs := by
+  obtain ⟨j', h⟩ := compact_fold g d xs [] []
+  simp only [List.length_nil, Nat.add_zero, Nat.zero_add, List.nil_append] at h
+  rw [List.range_eq_range', h]
+  simp
+
+/-- `for _, x := range xs { out = append(out, f x) }` is `List.map` -/
+theorem foldl_append_map (f : β → γ) (xs : List β) (acc : List γ) :
+    xs.foldl (fun (out : List γ) x => out ++ [f x]) acc = acc ++ xs.map f := by
+  induction xs generalizing acc with
+  | nil => simp
+  | cons x t ih => simp [ih]
+
 end Orb.LoopForms
